@@ -390,7 +390,8 @@ func (dcc *dataConditionsContainer) finalize(r *Reader, queryPartIndex int, prev
 					content := ""
 					if v.SubQuery == "" {
 						//TODO: maybe extract the regex for this variable
-						content = ".*"
+						// the captured bytes may hold a newline
+						content = "(?s:.*)"
 						isPrecondition = true
 					} else {
 						psq := possibleSubQueries[v.SubQuery]
